@@ -200,6 +200,9 @@ Definition installed (s0 : fs) (x : entry) (n : node) : Prop :=
   (is_kdir x = true /\ exists n0, lookup s0 (e_loc x) = Some n0 /\ keeps_dir x n0 n).
 
 
+(* the inode a path names (None: unbound or not a regular file) *)
+Definition ino_at (s : fs) (p : path) : option N := match lookup s p with Some n => ino_of n | None => None end.
+
 (* everything the harness compares for one case, computed once *)
 Definition run_case (c : minput * obs) : val :=
   VL [VB (trace_ok c); VB (err_ok c); VB (snap_ok c); VB (plan_ok c); VB (spec_ok c)].
